@@ -158,6 +158,11 @@ vget_dir(const char *domain, struct userconf *ds)
 			close(ds->userdirfd);
 			ds->userdirfd = -1;
 		}
+		/* user_exists() opens the domain directory again */
+		if (ds->domaindirfd >= 0) {
+			close(ds->domaindirfd);
+			ds->domaindirfd = -1;
+		}
 		free(ds->userconf);
 		ds->userconf = NULL;
 	}
